@@ -73,12 +73,15 @@ func (s scen) line() string {
 
 func Gen(r *hx.Rng, tier string, w io.Writer) {
 	var ss []scen
-	// fixed core: every axis once, and the known late stop (genesis in the future) deliberately
+	// fixed core: every axis once, and deliberately the stop request DURING the start-up delay (genesis in the future):
+	// repaired in /repo by 57ac6dd (the delay is a select on ctx.Done()/time.After), so it must stop promptly now; if
+	// the delay ever becomes uninterruptible again the monitor reports C13/stop/AggregationLoop-not-prompt/start-up-delay
+	// (no longer in the known list: a VIOLATION)
 	ss = append(ss,
 		scen{mode: "agg", bt: 50, span: 700},
 		scen{mode: "agg", bt: 50, span: 600, slow: 120},
 		scen{mode: "agg", bt: 40, span: 700, lazy: true},
-		scen{mode: "agg", bt: 100, span: 300, future: 4000}, // stop during the start-up delay: KNOWN late
+		scen{mode: "agg", bt: 100, span: 300, future: 4000}, // stop during the start-up delay: must be prompt
 		scen{mode: "agg", bt: 50, span: 900, future: 300},   // start-up delay over before the stop
 		scen{mode: "full", bt: 50, span: 800, prod: 600},
 		scen{mode: "full", bt: 50, span: 700, prod: 500, slow: 40},
@@ -108,8 +111,10 @@ func Gen(r *hx.Rng, tier string, w io.Writer) {
 	if tier == "thorough" {
 		ss = append(ss, scen{mode: "agg", bt: 60, span: 500, future: 5000, lazy: true})
 	}
-	// KNOWN hang, generated deliberately and last: a full node whose execution layer aborts its calls with ctx.Err()
-	// when the node is stopped - SyncLoop and DAIncluderLoop both report the error on the capacity-1 errCh
+	// generated deliberately and last: a full node whose execution layer aborts its calls with ctx.Err() when the node
+	// is stopped - SyncLoop and DAIncluderLoop both report the error on the capacity-1 errCh after Run stopped reading
+	// it.  Repaired in /repo by 9e73ab9 (non-blocking error reports), so Run must return promptly now; a blocking
+	// `errCh <- err` coming back is reported as C13/stop/Run-never-returns/second-error-send-on-full-errCh (VIOLATION)
 	ss = append(ss, scen{mode: "full", bt: 50, span: 700, prod: 700, xexec: 120, slow: 60})
 	for _, s := range ss {
 		fmt.Fprintln(w, "reset")
@@ -864,8 +869,10 @@ func Run(c *hx.Ctx) {
 			for attempt := 0; attempt < 3; attempt++ {
 				out = runScenario(c, s)
 				if s.xexec > 0 && out.err == "" && out.stopped == "1" {
-					// the deliberately generated hang needs both loops inside the execution layer at the stop instant
-					c.Hit("xexec-retry")
+					// two error reports at the stop request need both loops inside the execution layer at the stop
+					// instant: the scenario is run three times (all three must stop promptly) so that a blocking error
+					// send, should one come back, is met with high probability
+					c.Hit("xexec-repeat")
 					continue
 				}
 				if out.err != "" || out.stopped == "1" || out.stopped == "hang" {
@@ -895,8 +902,8 @@ func Run(c *hx.Ctx) {
 					c.Report("C13/stop/Run-not-prompt/after-the-loops", fmt.Sprintf("Run returned %v after the stop request (all loops had returned within %v)", out.took, promptBound))
 				}
 				if out.stopped == "hang" && len(out.reasons) > 0 {
-					// every loop that is left sits in a plain channel send of its own body: the only such sends of these
-					// three loops are `errCh <- err` (Gen/C13.lean) - the second error after Run stopped reading
+					// every loop that is left sits in a plain channel send of its own body: the only channel these three
+					// loops send on in their own body is errCh (Gen/C13.lean) - the second error after Run stopped reading
 					all := true
 					var who []string
 					for l, why := range out.reasons {
